@@ -87,7 +87,7 @@ func registerIntrinsics() {
 		in.ex.mu.Lock()
 		in.ex.reached["assert:"+id]++
 		in.ex.mu.Unlock()
-		in.vc(in.tc.Not(in.term(args[0])), "ASSERT", id, "assertion "+id+" violated at "+in.callerWhere())
+		in.vcLazy(in.tc.Not(in.term(args[0])), "ASSERT", func() (string, string) { return id, "assertion " + id + " violated at " + in.callerWhere() })
 		return nil, nDone
 	})
 	reg("vxReach", func(in *Interp, cc *callCtx, args []Value) (Value, nativeStatus) {
@@ -193,6 +193,26 @@ func registerIntrinsics() {
 	reg("vxRaceOn", func(in *Interp, cc *callCtx, args []Value) (Value, nativeStatus) {
 		in.raceOn = in.term(args[0]).k != 0
 		return nil, nDone
+	})
+	reg("vxAll", func(in *Interp, cc *callCtx, args []Value) (Value, nativeStatus) {
+		s := args[0].(Slice)
+		r := in.tc.True
+		if s.obj != nil {
+			for i := 0; i < int(s.len.k); i++ {
+				r = in.tc.And(r, in.term(s.obj.get(s.off+i)))
+			}
+		}
+		return r, nDone
+	})
+	reg("vxAny", func(in *Interp, cc *callCtx, args []Value) (Value, nativeStatus) {
+		s := args[0].(Slice)
+		r := in.tc.False
+		if s.obj != nil {
+			for i := 0; i < int(s.len.k); i++ {
+				r = in.tc.Or(r, in.term(s.obj.get(s.off+i)))
+			}
+		}
+		return r, nDone
 	})
 	reg("vxSymbolic", func(in *Interp, cc *callCtx, args []Value) (Value, nativeStatus) {
 		return in.tc.True, nDone
